@@ -139,3 +139,56 @@ rewrite /kalman_S (kalman_det kalman_pivots_nz); apply: eq_bigr => k _.
 by rewrite kalman_s_pivot.
 Qed.
 End KalmanExact.
+
+(* ---- for a time-invariant kernel record the Kalman model covariance IS the matrix the quasiseparable solver factorises ---- *)
+From TinyGP Require Import Model.General Model.SSKernel Theory.SSK Theory.QSMArith.
+Lemma den_diag_DmK (F : fieldType) k (v : vec F) : den_diag k v = Dm k (fun i => nth 0 v i) :> 'M[F]_k.
+Proof. by apply/matrixP => i j; rewrite !mxE -val_eqE /=; case: eqP => _; rewrite ?mulr1n ?mulr0n. Qed.
+
+Section KalmanQuasisep.
+Variable F : fieldType.
+Variables (sq : F -> F) (lt : F -> F -> bool).
+Notation fops := (fops sq lt).
+Variables (X : Type) (k : sskernel F X) (x0 : X) (xs : seq X) (dg : vec F).
+Notation n := (size xs).
+Notation m := (ssm k).
+Notation xi i := (nth x0 xs i).
+(* the tables KalmanSolver.__init__ builds from the kernel *)
+Definition kal_A : seq (mat F) := mkseq (fun i => ssA k (prevx x0 xs i) (xi i)) n.
+Definition kal_H : mat F := mkseq (fun i => ssh k (xi i)) n.
+
+Hypothesis Psym : (Pm k)^T = Pm k.
+Variable h0 : 'rV[F]_m.
+Hypothesis Hconst : forall x, Hx k x = h0.
+Hypothesis Acomm : forall x y x' y', Ax k x y *m Ax k x' y' = Ax k x' y' *m Ax k x y.
+
+Theorem kalman_S_is_quasisep :
+  kalman_S n m (ssP k) kal_A kal_H dg
+  = den n (to_symm_qsm fops k x0 xs) + Dm n (fun i => nth 0 dg i).
+Proof.
+rewrite /kalman_S.
+pose a i : 'M[F]_m := if (i < n)%N then Ax k (prevx x0 xs i) (xi i) else 0.
+have acomm i j : a i *m a j = a j *m a i.
+  by rewrite /a; case: ifP => _; case: ifP => _; rewrite ?mulmx0 ?mul0mx.
+rewrite -[RHS]/(den n (Symm (Td sq lt k x0 xs) (Tl sq lt k x0 xs)) + _) /= den_diag_DmK /den_sl_at.
+have -> : kalman_cov n (mx_of m m (ssP k)) (fun i => (mx_of m m (tget kal_A i))^T) (fun i => rv_of m (mrow kal_H i)) (fun i => nth 0 dg i)
+        = kalman_cov n (Pm k) (fun i => (a i)^T) (fun _ => h0) (fun i => nth 0 dg i).
+  rewrite /kalman_cov /Amx; congr (_ + _ + _^T).
+  - apply: Dm_ext => i lt_i; rewrite /kd /mrow /kal_H nth_mkseq // -/(Hx k (xi i)) Hconst //.
+  - apply: denSL_ext => i lt_i.
+    + by rewrite /kp /mrow /kal_H /tget /kal_A !nth_mkseq // -/(Hx k (xi i)) Hconst /a lt_i.
+    + by rewrite /kq /mrow /kal_H nth_mkseq // -/(Hx k (xi i)) Hconst.
+    + by rewrite /tget /kal_A nth_mkseq // /a lt_i.
+  - apply: denSL_ext => i lt_i.
+    + by rewrite /kp /mrow /kal_H /tget /kal_A !nth_mkseq // -/(Hx k (xi i)) Hconst /a lt_i.
+    + by rewrite /kq /mrow /kal_H nth_mkseq // -/(Hx k (xi i)) Hconst.
+    + by rewrite /tget /kal_A nth_mkseq // /a lt_i.
+rewrite (kalman_cov_lti n h0 (fun i => nth 0 dg i) Psym acomm).
+have -> : Dm n (qsd (Pm k) h0 (fun i => nth 0 dg i)) = Dm n (fun i => nth 0 dg i) + Dm n (fun i => nth 0 (Td sq lt k x0 xs) i).
+  by apply/matrixP => i j; rewrite !mxE; case: eqP => // _; rewrite ?addr0 // /qsd T_d // Hconst addrC.
+rewrite [RHS]addrC !addrA.
+congr (_ + _ + _ + _^T).
+- by apply: denSL_ext => i lt_i; rewrite ?T_P ?T_Q ?T_A // /qsp /qsq ?Hconst /a ?lt_i.
+- by apply: denSL_ext => i lt_i; rewrite ?T_P ?T_Q ?T_A // /qsp /qsq ?Hconst /a ?lt_i.
+Qed.
+End KalmanQuasisep.
